@@ -80,8 +80,14 @@ class DropletMethod(Contract):
         r = fnum(inputs.get("self_radius", 1.0))
         if case["cls"] == "DiffuseDroplet":
             w = None if inputs.get("self_width_unset") else fnum(inputs.get("self_width", 1.0))
-            return make_droplet("DiffuseDroplet", pos, r, w)
-        return make_droplet("SphericalDroplet", pos, r)
+            out = make_droplet("DiffuseDroplet", pos, r, w)
+        else:
+            out = make_droplet("SphericalDroplet", pos, r)
+        if inputs.get("pickled"):       # a droplet that went through pickle (worker processes) / deepcopy
+            import copy
+            import pickle
+            out = pickle.loads(pickle.dumps(out)) if inputs["pickled"] == 1 else copy.deepcopy(out)
+        return out
 
     def bounded_inputs(self, case, tier, seed):
         import random
@@ -93,6 +99,7 @@ class DropletMethod(Contract):
             out["self_width"] = rng.uniform(0, 2)
             out["self_width_unset"] = (k % 3 == 0)
             out["volume"] = 10 ** rng.uniform(-14, 6)
+            out["pickled"] = [0, 0, 1, 0, 2][k % 5]
             yield out
 
     def check_concrete(self, case, inputs, fn, clauses):
@@ -546,6 +553,7 @@ class Merge(Contract):
                 out[f"{nm}_radius"] = [1.0, 0.2, 3.0, 1.0][(k + len(nm)) % 4] * (1 + rng.random())
                 out[f"{nm}_width"] = [0.0, 1.0, 2.0][(k + len(nm)) % 3]
                 out[f"{nm}_width_unset"] = (k % 7 == 6)
+            out["pickled"] = (k % 3 == 2)       # operands that went through pickle (worker processes, deepcopy)
             yield out
 
     def concrete_run(self, case, inputs):
@@ -562,6 +570,9 @@ class Merge(Contract):
                 return cls(pos, r, w)
             return cls(pos, r)
         me = mk("self")
+        if inputs.get("pickled"):
+            import pickle
+            me = pickle.loads(pickle.dumps(me))
         other = me if case["alias"] == "other=self" else mk("other")
         if me.volume + other.volume <= 0:
             return dict(violated=[], observed="precondition not met", inputs=inputs)
@@ -596,3 +607,62 @@ def _unchanged(now, old, ww):
         same += [now["interface_width"][0] == old["interface_width"][0],
                  now["interface_width"][1] == old["interface_width"][1]]
     return z3.And(*same)
+
+
+# =====================================================================================================================
+@register
+class SetState(Contract):
+    """DropletBase.__setstate__(state): how a droplet comes out of pickle / a worker process.
+
+    ASSUMED numpy fact (validated by the bounded tier: pickle round trip followed by an in-place merge / a volume assignment): item assignment
+    to a structured record that was unpickled is silently discarded; `.copy()` of it is an ordinary writable record.  So every in-place
+    operation of C11 / C12 / C15 (merge in place, volume setter, refinement in worker processes) relies on the droplet owning a COPY."""
+    key = f"{MOD}:DropletBase.__setstate__"
+    modular = False
+
+    def cases(self):
+        return [dict(cls=c, dim=2) for c in SIMPLE_CLASSES]
+
+    def setup(self, run, case):
+        from pyvc import source
+        rec = sym_droplet(run, "pickled", case["dim"], case["cls"]).fields["data"]
+        me = SObj(source.get_class(MOD, case["cls"]), {}, tag="unpickled droplet")
+        self.ctx = (me, rec, rec_view(rec))
+        return dict(self=me, state={"data": rec})
+
+    def post(self, a, ret, case):
+        me, rec, old = self.ctx
+        ww = case["cls"] == "DiffuseDroplet"
+        got = me.fields.get("data")
+        if not isinstance(got, SRec):
+            return [("the unpickled droplet carries a data record", False)]
+        return [("the unpickled droplet owns a fresh, writable copy of the record (numpy silently discards item assignments to unpickled records)",
+                 got is not rec),
+                ("the copy holds the pickled values", _unchanged(rec_view(got), old, ww)),
+                ("the pickled record itself is not modified", _unchanged(rec_view(rec), old, ww))]
+
+    def bounded_inputs(self, case, tier, seed):
+        for k in range(3 if tier == "quick" else 20):
+            yield dict(seed=seed * 31 + k)
+
+    def concrete_run(self, case, inputs):
+        import copy
+        import pickle
+        import random
+        import droplets.droplets as dd
+        rng = random.Random(inputs.get("seed", 0))
+        cls = getattr(dd, case["cls"])
+        args = [[rng.uniform(-2, 2) for _ in range(case["dim"])], rng.uniform(0.5, 2)] + ([rng.uniform(0, 1)] if case["cls"] == "DiffuseDroplet" else [])
+        bad = []
+        for how in ("pickle", "deepcopy"):
+            d = cls(*args)
+            e = pickle.loads(pickle.dumps(d)) if how == "pickle" else copy.deepcopy(d)
+            if e != d:
+                bad.append("the copy holds the pickled values")
+            e.radius = 7.25
+            e.position = e.position + 1.0
+            if float(e.radius) != 7.25 or any(float(x) != float(y) + 1.0 for x, y in zip(e.position, d.position)):
+                bad.append("the unpickled droplet owns a fresh, writable copy of the record (numpy silently discards item assignments to unpickled records)")
+            if float(d.radius) == 7.25:
+                bad.append("the pickled record itself is not modified")
+        return dict(violated=sorted(set(bad)), observed=how, inputs=inputs)
